@@ -6,6 +6,11 @@ VERIF = os.path.dirname(os.path.abspath(__file__))
 
 # property id -> (level category, technique, level text, level note, design ref)
 CLAIMED = {
+    "C12": ("exploration",
+            "lifecycle monitor: parked-goroutine detector on Close / blocked calls / post-close calls, causal epoch check for deliveries after Close, goroutine-set difference for leaks",
+            "On every stack 0-16 goroutines are blocked in Receive/ServeAsk with background contexts while peers tell and ask (optionally replying from inside callbacks); Close at a seeded moment must return, unblock every blocked call with an error, make all later calls fail, never deliver a message created after it returned, tolerate a second Close, and after all swarms are closed no goroutine started by them may remain.",
+            "Blocked = parked in library frames in two snapshots 1 s apart after a 5-6 s watchdog; messages in flight at Close are not judged; composites are torn down by their documented owner.",
+            "DESIGN.md §4 C12"),
     "C10": ("fault_enumeration",
             "harness-as-transport: enumerated and random interleaving/loss/duplication schedules of labelled real fragments fed to fresh real reassembly instances; payload-identity oracle",
             "Fragments captured from real fragswarm/mbapp senders are fed to a fresh destination instance per schedule: all interleavings x drop-one x duplicate-one for pairs of small messages, random shuffles with loss/duplication for all messages, at inner MTUs 40/64/100/1000; every delivered payload must be one sent payload of the sender Src names, messages with a never-fed fragment must not appear; also multi-part ask replies under perturbation and reply/tell group-id coincidences.",
